@@ -39,6 +39,9 @@ CHECKS = {
  'C14': ('exploration', 'runtime monitoring of instrumented Reqs callbacks (event log: call counts, concurrency, visit orders) under permuted lists and injected latencies with the race detector; results compared with a sequential fixpoint model; semver against an independent SemVer 2.0 model + order axioms',
    'Random requirement graphs, each run under several (permutation x latency) schedules with -race; BuildList/Req/Upgrade/UpgradeAll/Graph decided by a brute-force closure, Downgrade by invariants; semver on random valid/near-valid triples.',
    'Trusts the brute-force closure and the SemVer model (unit-tested against the semver.org examples); schedules are the ones the Go scheduler produced under the injected latencies.', 'DESIGN.md §4 C14'),
+ 'C17': ('exploration', 'runtime monitoring of modload.Tidy behind an instrumented in-memory registry (call log, PRNG latencies, concurrency high-water mark) under the race detector, 4 schedules x permuted sources per universe; results decided by invariants over the generated universe (pruned-graph MVS consistency, import closure, no unused entry, justified versions, fixpoint, CheckTidy, schedule independence, expected errors); module files: Parse(Format(f)) == f and malformed files rejected',
+   '1.2k/20k universes of 2-6 modules x 3 versions (majors, pre-releases, tidy published modules; simple/stale/missing/ambiguous/no-major main modules) x 4 schedules with -race; 3k/100k generated module files + 16 malformed files.',
+   'MVS consistency is checked in the pruned module graph cue uses (roots and their explicit requirements). Versions above the minimum that are residues of intermediate states are accepted (upgrades are never undone); agreement with the brute-force resolver is recorded only. One genuine defect repaired (fix: tidy re-resolution).', 'DESIGN.md §4 C17'),
  'C01': ('exploration', 'metamorphic runtime monitor: every program and each of its meaning-preserving rearrangements is evaluated in isolated worker processes (write-ahead log, watchdog) and observed through the public cue.Value API; observations must be equal',
    '1.5k (quick) / 25k (thorough) PRNG programs of the acyclic core fragment x 4-8 rearrangements + multi-file partition, plus the calibrated part of the frozen evaluator corpus with frozen rearrangements.',
    'Equivalence is observational (kinds, values, defaults, closedness, optional/required, new-field constraints, probe-atom acceptance, error class per path). Fields that depend on a field erroneous in both programs are not compared. Two recorded findings matched by class.', 'DESIGN.md §4 C01'),
